@@ -73,7 +73,20 @@ func (ss *Session) runAgentSession(t *testing.T, st *stats) error {
 		st.label("agent-session-inconclusive-environment")
 		return nil
 	}
-	defer a.Close()
+	// Agent.Close takes the lock of every Client it created. On the unchanged tree a Poll that reaches the fake while
+	// its sender is inside nextInQueue can wedge that Client for good (reset holds c.mu and wants c.qMu, nextInQueue
+	// holds c.qMu and wants c.mu: seen once in 160000 thorough cases on a loaded machine; how the fake survives polls
+	// is not part of C20's statement). The teardown therefore never waits for ever: a Close that does not come back
+	// is left behind and the case is labelled inconclusive.
+	defer func() {
+		done := make(chan struct{})
+		go func() { a.Close(); close(done) }()
+		select {
+		case <-done:
+		case <-time.After(agentSessionPatience):
+			st.label("agent-session-inconclusive-agent-close-did-not-return")
+		}
+	}()
 	_, port, perr := net.SplitHostPort(a.Address())
 	if perr != nil {
 		st.label("agent-session-inconclusive-environment")
